@@ -39,6 +39,9 @@ def run(path, verbose=True):
     if kind == "switch-tv":  # C10: a switch condition / case list + environments, through the real parser and Switch::actions
         import props.c10
         return props.c10.replay(r, path, wd)
+    if kind == "c12table":   # C12 part 1: a defseq table through the real parser again, judged by TLC (SeqTab!StJudge)
+        import props.c12
+        return props.c12.replay_table(r, path, wd)
     if kind == "crash":      # C02: (configuration, history) that crashed / hung event processing
         import props.c02
         return props.c02.replay(r, path, wd)
@@ -48,4 +51,7 @@ def run(path, verbose=True):
     if kind == "c07pair":    # C07: (prefix, gap K, continuation) run as the ticking and the blocked lane, judged by P_C07!PairErr
         import props.c07
         return props.c07.replay(r, path, wd)
+    if kind == "c01":        # C01: (configuration, history + quiet tail) recorded again, pre-processed and judged by P_C01
+        import props.c01
+        return props.c01.replay(r, path, wd)
     raise ToolError("unknown replay kind %r" % kind)
